@@ -1,9 +1,9 @@
 (* C06 — Rectangular lattices: element position, index order and fill array.
    Only restatements; proofs are in C06/Proofs*.v.  All statements are about
    the functions of C06/Model.v that the correspondence tie executes. *)
-From Coq Require Import List ZArith Bool Reals Lra Lia.
+From Coq Require Import List ZArith Bool Reals Lra Lia String Ascii.
 From T4V Require Import Base.Str Base.Scalar C06.Model
-     C06.ProofsIndex C06.ProofsNumeric C06.ProofsDevelop.
+     C06.ProofsIndex C06.ProofsNumeric C06.ProofsDevelop C06.ProofsTop C06.ProofsText.
 Import ListNotations.
 
 (* ---- index order ----------------------------------------------------------
@@ -130,6 +130,15 @@ Theorem C06_outward_sense : forall s : @plane R * Z, snd s = 1%Z ->
 Proof. exact outward_flipped. Qed.
 Print Assumptions C06_outward_sense.
 
+
+(* the "side" entries do not influence the result at all: the reciprocal vector
+   of a pair is n/((p-q).n), unchanged under n -> -n, so the base vector always
+   points from the second-listed plane to the first-listed one *)
+Theorem C06_square_sides_irrelevant : forall l l' : list (@plane R * Z),
+  map fst l = map fst l' -> squareLatticeBaseVectors RS l = squareLatticeBaseVectors RS l'.
+Proof. exact square_sides_irrelevant. Qed.
+Print Assumptions C06_square_sides_irrelevant.
+
 (* error branches: a number of surfaces other than 2, 4, 6 is a LatticeError;
    a pair of coincident planes divides by zero *)
 Theorem C06_square_errors :
@@ -223,6 +232,78 @@ Proof.
 Qed.
 Print Assumptions C06_degenerate_range_refuted.
 
+
+(* ---- the top-level model function (LAT=1), 1, 2 and 3 pairs of planes ------
+   located_elems bs spec cell vecs elems = the four conclusions of
+   C06_develop_lattice_located for these base vectors *)
+Theorem C06_develop_lattice_square :
+  forall (dic : Z -> list (@plane R * Z)) (ids : list Z) (cell : @lat_cell R) (bs : bounds) (spec : list Z),
+  lc_fill cell = FSpec bs spec -> bs <> [] -> wf_bounds bs ->
+  Z.of_nat (List.length spec) = size bs -> cell_shape_ok cell ->
+  (forall sa sb, extract_surfaces dic ids = [sa; sb] -> spacing sa sb <> 0%R ->
+     dimension_checks 1 bs = Ok tt ->
+     exists a elems, develop_lattice RS dic ids cell = Ok elems /\
+       dot a (outward sa) = spacing sa sb /\ (exists k, a = rescale RS k (outward sa)) /\
+       located_elems cell bs spec [a] elems) /\
+  (forall sa sb sc sd, extract_surfaces dic ids = [sa; sb; sc; sd] ->
+     spacing sa sb <> 0%R -> spacing sc sd <> 0%R -> gram2 (outward sa) (outward sc) <> 0%R ->
+     dimension_checks 2 bs = Ok tt ->
+     exists a1 a2 elems, develop_lattice RS dic ids cell = Ok elems /\
+       dot a1 (outward sa) = spacing sa sb /\ dot a1 (outward sc) = 0%R /\
+       dot a2 (outward sa) = 0%R /\ dot a2 (outward sc) = spacing sc sd /\
+       (exists x y, a1 = lin2 x y (outward sa) (outward sc)) /\
+       (exists x y, a2 = lin2 x y (outward sa) (outward sc)) /\
+       located_elems cell bs spec [a1; a2] elems) /\
+  (forall sa sb sc sd se sf, extract_surfaces dic ids = [sa; sb; sc; sd; se; sf] ->
+     spacing sa sb <> 0%R -> spacing sc sd <> 0%R -> spacing se sf <> 0%R ->
+     triple (outward sa) (outward sc) (outward se) <> 0%R ->
+     dimension_checks 3 bs = Ok tt ->
+     exists a1 a2 a3 elems, develop_lattice RS dic ids cell = Ok elems /\
+       dot a1 (outward sa) = spacing sa sb /\ dot a1 (outward sc) = 0%R /\ dot a1 (outward se) = 0%R /\
+       dot a2 (outward sa) = 0%R /\ dot a2 (outward sc) = spacing sc sd /\ dot a2 (outward se) = 0%R /\
+       dot a3 (outward sa) = 0%R /\ dot a3 (outward sc) = 0%R /\ dot a3 (outward se) = spacing se sf /\
+       located_elems cell bs spec [a1; a2; a3] elems).
+Proof.
+  intros dic ids cell bs spec H1 H2 H3 H4 H5. split; [|split].
+  - intros. now apply develop_lattice_1d.
+  - intros. now apply develop_lattice_2d.
+  - intros. now apply develop_lattice_3d.
+Qed.
+Print Assumptions C06_develop_lattice_square.
+
+(* the planes reach the base-vector code in card order; a negative literal
+   reverses the recorded side *)
+Theorem C06_extract_surfaces : forall (dic : Z -> list (@plane R * Z)) (ids : list Z),
+  (forall id, In id ids -> exists P, dic (Z.abs id) = [(P, 1%Z)]) ->
+  List.length (extract_surfaces dic ids) = List.length ids /\
+  forall k id, nth_error ids k = Some id ->
+    exists P, dic (Z.abs id) = [(P, 1%Z)] /\
+              nth_error (extract_surfaces dic ids) k = Some (P, if (0 <? id)%Z then 1%Z else (-1)%Z).
+Proof. exact extract_surfaces_planes. Qed.
+Print Assumptions C06_extract_surfaces.
+
+(* ---- text level ------------------------------------------------------------
+   spells_range s (lo, hi): s = a ++ ":" ++ c with int(a) = lo, int(c) = hi for
+   any spelling the model's int() accepts (sign, leading zeros) *)
+Theorem C06_parse_ranges_spelled : forall (strs : list string) (bs : bounds),
+  Forall2 spells_range strs bs -> parse_ranges strs = Ok bs.
+Proof. exact parse_ranges_spelled. Qed.
+Print Assumptions C06_parse_ranges_spelled.
+
+Theorem C06_parse_lattice_option :
+  forall (head : string) (cell : Z) (strs : list string) (bs : bounds),
+  int_of_signed head = Some cell -> Forall2 spells_range strs bs ->
+  ((1 <= List.length strs <= 3)%nat ->
+     parse_lattice [(head ++ String "," (join_comma strs))%string] = Ok [(cell, bs)]) /\
+  ((3 < List.length strs)%nat ->
+     parse_lattice [(head ++ String "," (join_comma strs))%string] = Err EValue).
+Proof.
+  intros head cell strs bs Hh Hs. split; intros Hl.
+  - now apply parse_lattice_option.
+  - now apply (parse_lattice_too_many head cell strs bs).
+Qed.
+Print Assumptions C06_parse_lattice_option.
+
 (* ---- non-vacuity ------------------------------------------------------------ *)
 (* a skew 2-D unit cell: planes x = +-1 (far plane first) and x + y = +-1 (near
    plane first, normal of the first one pointing into the cell) *)
@@ -254,4 +335,14 @@ Proof.
   - repeat constructor; cbn; lia.
   - now right.
   - right. eexists; split; reflexivity.
+Qed.
+
+(* a negative range with leading zeros and an explicit plus sign *)
+Example C06_example_ranges :
+  spells_range "-03:+1"%string (-3, 1)%Z /\ spells_range "0:0"%string (0, 0)%Z /\
+  parse_lattice ["007,-03:+1,0:0"%string] = Ok [(7, [(-3, 1); (0, 0)])]%Z.
+Proof.
+  repeat split.
+  - exists "-03"%string, "+1"%string. repeat split; reflexivity.
+  - exists "0"%string, "0"%string. repeat split; reflexivity.
 Qed.
